@@ -12,10 +12,12 @@ CONSTANTS
   Kinds <- KindsAll
   EmitOn = FALSE
   MaxSteps = 2
+  FmVals = {"nikuradse", "colebrook", "swamee-jain"}
   FdVals = {1}
   TeVals = {1}
   DtVals = {0}
 INVARIANT InvBalance
 INVARIANT InvOrientationFree
 INVARIANT InvShift
+INVARIANT InvFrictionModel
 CHECK_DEADLOCK FALSE
